@@ -144,7 +144,7 @@ func (C09) growth(tp *tape.Tape) core.Result {
 	sw := drawSwarm(tp)
 	g := newGen(tp, sw)
 	defs := buildDefs(g, sw)
-	kind := tp.Draw(10)
+	kind := tp.Draw(11)
 	n := 3 + tp.Draw(6)
 	body := g.BodyStmts(g.EmptyFuncScope("i", "n", "e", "s", "r"), 1+tp.Draw(3))
 	// what the loop body ends in: the statement form whose value (or absence of one) the loop
@@ -182,6 +182,8 @@ func (C09) growth(tp *tape.Tape) core.Result {
 		def = "lp = (n) -> {\ni = 0\nif n > 0 {\nwhile i < n " + gen.Block(withTail(body, true)) + "\n} else {\n0\n}\n}"
 	case 4: // for in discarded position, then a for as the tail of a conditional branch
 		def = "lp = (n) -> {\nfor i <- fromto(0, n) " + gen.Block(forBody) + "\nif n > 0 {\nfor i <- fromto(0, n) " + gen.Block(forBody) + "\n}\n}"
+	case 10: // the `while true` idiom in discarded position, left by a return; the body still ends in the drawn statement form
+		def = "lp = (n) -> {\ni = 0\nwhile true " + gen.Block(append(append(append([]string{}, body...), "i = i + 1", "if i >= n {\nreturn i\n}"), withTail(nil, false)...)) + "\n0\n}"
 	case 8: // a generator called as a plain call: every yield only evaluates to its operand, n of them in a row
 		def = "lp = (n) -> {\ngg = (m) -> {\ni = 0\nwhile i < m " + gen.Block(append(append([]string{}, body...), "yield i * 2", "i = i + 1")) + "\n}\ngg(n)\nfromto(0, n)\nn\n}"
 	case 9: // && and || over call results and indexed values, decided by either side, once per iteration
